@@ -81,23 +81,31 @@ bool lib_hash_init(zckCtx *zck, zckHash *hash)
         return false;
 }
 
+/* The bundled SHA functions take the length as unsigned int: feed at most this many bytes per call */
+#define LIB_HASH_MAX_UPDATE ((size_t)1 << 30)
+
 bool lib_hash_update(zckCtx *zck, zckHash *hash, const char *message, const size_t size)
 {
-        if(hash->type->type == ZCK_HASH_SHA1) {
-            SHA1_Update((SHA_CTX *)hash->ctx, (const sha1_byte *)message, size);
-            return true;
-        } else if(hash->type->type == ZCK_HASH_SHA256) {
-            SHA256_Update((SHA256_CTX *)hash->ctx,
-                          (const unsigned char *)message, size);
-            return true;
-        } else if(hash->type->type >= ZCK_HASH_SHA512 &&
-                  hash->type->type <= ZCK_HASH_SHA512_128) {
-            SHA512_Update((SHA512_CTX *)hash->ctx,
-                          (const unsigned char *)message, size);
-            return true;
+        size_t done = 0;
+        if(hash->type->type != ZCK_HASH_SHA1 && hash->type->type != ZCK_HASH_SHA256 &&
+           !(hash->type->type >= ZCK_HASH_SHA512 && hash->type->type <= ZCK_HASH_SHA512_128)) {
+            set_error(zck, "Unsupported hash type: %s", zck_hash_name_from_type(hash->type->type));
+            return false;
         }
-        set_error(zck, "Unsupported hash type: %s", zck_hash_name_from_type(hash->type->type));
-        return false;
+        while(done < size) {
+            unsigned int part = size - done > LIB_HASH_MAX_UPDATE ?
+                                (unsigned int)LIB_HASH_MAX_UPDATE : (unsigned int)(size - done);
+            if(hash->type->type == ZCK_HASH_SHA1)
+                SHA1_Update((SHA_CTX *)hash->ctx, (const sha1_byte *)message + done, part);
+            else if(hash->type->type == ZCK_HASH_SHA256)
+                SHA256_Update((SHA256_CTX *)hash->ctx,
+                              (const unsigned char *)message + done, part);
+            else
+                SHA512_Update((SHA512_CTX *)hash->ctx,
+                              (const unsigned char *)message + done, part);
+            done += part;
+        }
+        return true;
 }
 
 char *lib_hash_final(zckCtx *zck, zckHash *hash)
